@@ -22,6 +22,7 @@ CAP = 160            # backing-store bytes per object with symbolic size
 ALLOC_MAX = 1 << 16  # larger allocation requests are modelled as throwing std::bad_alloc (stated in the evidence)
 
 class Unsupported(Exception): pass
+FPANY = object()    # a double that depends on symbolic data: any value (see the floating-point note in Engine.instr)
 class Violation(Exception):
     def __init__(s, kind, detail, model): s.kind = kind; s.detail = detail; s.model = model
 
@@ -66,6 +67,16 @@ class Engine:
             if t.startswith('to label') and blocks[cur]: blocks[cur][-1] += ' ' + t; continue
             if (t.startswith('cleanup') or t.startswith('catch ') or t.startswith('filter ')) and blocks[cur]: continue
             blocks[cur].append(t)
+        for lbl in blocks:      # a switch spans several lines
+            merged = []; acc = None
+            for t in blocks[lbl]:
+                if acc is not None:
+                    acc += ' ' + t
+                    if t.endswith(']'): merged.append(acc); acc = None
+                    continue
+                if t.startswith('switch ') and not t.endswith(']'): acc = t; continue
+                merged.append(t)
+            blocks[lbl] = merged
         return dict(ret=f['ret'], params=f['params'], blocks=blocks, entry=order[0])
 
     def new_obj(s, st, name, size, kind, init=None, cap=None):
@@ -85,33 +96,51 @@ class Engine:
         return o, bvv((oid + 1) << 32, 64)
 
     def init_globals(s, st):
-        P = s.P
+        P = s.P; pending = []
+        # phase 1: addresses (functions and unknown externals get distinct non-null addresses without storage)
+        k = 0
+        for name in list(s.tr.funcs) + list(s.tr.decls): k += 1; s.global_ptr[name] = bvv((0x7000 + k) << 32, 64)
         for name, ty, init in s.tr.globals_c:
             if name.startswith('@llvm.'): continue
             try: size, _ = P.size_align(ty)
             except Exception: size = 16
-            data = s.global_bytes(ty, init, size)
-            o, p = s.new_obj(st, name, max(size, 1), 'global', init=data)
-            s.global_ptr[name] = p
-        # functions and unknown externals get distinct non-null addresses without storage
-        k = 0
-        for name in list(s.tr.funcs) + list(s.tr.decls):
-            if name not in s.global_ptr: k += 1; s.global_ptr[name] = bvv((0x7000 + k) << 32, 64)
+            o, p = s.new_obj(st, name, max(size, 1), 'global', init=[bvv(0, 8)] * max(size, 1)); s.global_ptr[name] = p; pending.append((o, ty, init, size))
+        # phase 2: contents
+        for o, ty, init, size in pending:
+            try: data = s.const_bytes(st, ty, init.strip())
+            except Unsupported as u: s.stats['unsupported_globals'] = s.stats.get('unsupported_globals', 0) + 1; data = [bvv(0, 8)] * size
+            o.bytes = list(data) + [bvv(0, 8)] * (o.cap - len(data))
 
-    def global_bytes(s, ty, init, size):
-        init = init.strip(); r = s.P.resolve(ty)
-        if init in ('', 'zeroinitializer', 'undef'): return [bvv(0, 8)] * size
-        m = re.match(r'c"(.*)"$', init)
+    def const_bytes(s, st, ty, init):
+        """bytes of a constant initializer of type ty"""
+        P = s.P; r = P.resolve(ty); size, _ = P.size_align(r) if r.k != 'opaque' else (0, 1)
+        if init in ('', 'zeroinitializer', 'undef', 'poison') or (init == 'null'): return [bvv(0, 8)] * size
+        m = re.match(r'c"(.*)"$', init, re.S)
         if m:
             out = []; t = m.group(1); i = 0
             while i < len(t):
                 if t[i] == '\\': out.append(int(t[i+1:i+3], 16)); i += 3
                 else: out.append(ord(t[i])); i += 1
             return [bvv(b, 8) for b in out] + [bvv(0, 8)] * (size - len(out))
-        if re.match(r'-?\d+$', init) and r.k == 'int':
-            v = int(init) & ((1 << (8 * size)) - 1); return [bvv((v >> (8 * k)) & 255, 8) for k in range(size)]
-        if init == 'null': return [bvv(0, 8)] * size
-        s.stats['unsupported'].append("global initializer treated as zero: " + init[:60]); return [bvv(0, 8)] * size
+        if r.k == 'int' or r.k in ('ptr', 'func'):
+            v = s.value(st, r, init) if not re.match(r'-?\d+$', init) else bvv(int(init), 8 * size)
+            v = s.resize(v, 8 * size, False); return [simp(z3.Extract(8 * k + 7, 8 * k, v)) for k in range(size)]
+        if r.k == 'array':
+            if not (init.startswith('[') and init.endswith(']')): raise Unsupported("array initializer " + init[:40])
+            out = []; esz, _ = P.size_align(r.el)
+            for part in s.tr.split_commas(init[1:-1]):
+                ety, e = P.parse_type(part); out += s.const_bytes(st, ety, part[e:].strip())
+            return out + [bvv(0, 8)] * (size - len(out))
+        if r.k == 'struct':
+            body = init
+            if body.startswith('<{') and body.endswith('}>'): body = body[2:-2]
+            elif body.startswith('{') and body.endswith('}'): body = body[1:-1]
+            else: raise Unsupported("struct initializer " + init[:40])
+            out = [bvv(0, 8)] * size
+            for idx, part in enumerate(s.tr.split_commas(body)):
+                ety, e = P.parse_type(part); off, _ = P.field_offset(r, idx); b = s.const_bytes(st, ety, part[e:].strip()); out[off:off + len(b)] = b
+            return out
+        raise Unsupported("initializer of type " + r.k)
 
     # ------------------------------------------------------------------ solver
     def check(s, st, extra):
@@ -179,6 +208,13 @@ class Engine:
         if bad: raise Violation("out-of-bounds", "%s: offset %s width %s in object %s of size %s" % (what, m.eval(off, model_completion=True), m.eval(w, model_completion=True), o.name, m.eval(o.size, model_completion=True)), m)
         st.safe_cache[key] = True; st.keep.append(ok_c)
 
+    def within_store(s, st, o, off, width, what):
+        """an access with a symbolic offset is expanded over the backing store only: make sure it cannot fall behind it"""
+        if is_c(o.size) and o.size.as_long() <= o.cap: return
+        w = bvv(width, 64) if isinstance(width, int) else width
+        beyond, m = s.check(st, [z3.UGT(off + w, bvv(o.cap, 64))])
+        if beyond: raise Unsupported("%s may touch byte %s of %s, behind its %d-byte backing store" % (what, m.eval(off, model_completion=True), o.name, o.cap))
+
     def read_byte(s, o, off):
         if is_c(off):
             k = off.as_long()
@@ -190,6 +226,7 @@ class Engine:
 
     def load(s, st, p, nbytes, what="load"):
         o, off = s.resolve(st, p, what); s.bounds(st, o, off, nbytes, what)
+        if not is_c(off): s.within_store(st, o, off, nbytes, what)
         bs = [s.read_byte(o, simp(off + bvv(k, 64))) for k in range(nbytes)]
         return simp(z3.Concat(*reversed(bs))) if nbytes > 1 else bs[0]
 
@@ -202,6 +239,7 @@ class Engine:
             if k0 + nbytes > o.cap: raise Unsupported("write beyond the backing store of " + o.name)
             for k in range(nbytes): o.bytes[k0 + k] = bs[k]
         else:
+            s.within_store(st, o, off, nbytes, what)
             for j in range(o.cap):
                 e = o.bytes[j]
                 for k in range(nbytes): e = z3.If(off + bvv(k, 64) == bvv(j, 64), bs[k], e)
@@ -213,6 +251,7 @@ class Engine:
         od, offd = s.resolve(st, dst, kind + " destination"); s.bounds(st, od, offd, n, kind + " destination")
         if kind != 'memset':
             os_, offs = s.resolve(st, src, kind + " source"); s.bounds(st, os_, offs, n, kind + " source"); snap = list(os_.bytes); scap = os_.cap
+            if not (is_c(offs) and is_c(n)): s.within_store(st, os_, offs, n, kind + " source")
         def src_byte(k):   # k: BV64 index from the start of the copy
             if kind == 'memset': return fill
             a = simp(offs + k)
@@ -251,6 +290,7 @@ class Engine:
         r = s.P.resolve(ty)
         if r.k == 'int': return r.bits
         if r.k in ('ptr', 'func'): return 64
+        if r.k == 'double': return 64
         raise Unsupported("value of type " + r.k)
     def value(s, st, ty, tok):
         r = s.P.resolve(ty)
@@ -264,6 +304,10 @@ class Engine:
         if r.k == 'struct':
             if tok in ('undef', 'zeroinitializer', 'poison'): return tuple(bvv(0, s.bits_of(e)) for e in r.els)
             raise Unsupported("aggregate constant " + tok)
+        if r.k == 'double':     # IEEE binary64 values are z3 floating-point terms
+            if tok in ('undef', 'poison', 'zeroinitializer'): return z3.FPVal(0.0, z3.Float64())
+            if tok.startswith('0x'): return z3.fpBVToFP(bvv(int(tok[2:], 16), 64), z3.Float64())
+            return z3.FPVal(float(tok), z3.Float64())
         b = s.bits_of(ty)
         if tok in ('null', 'zeroinitializer', 'undef', 'poison', 'false'): return bvv(0, b)
         if tok == 'true': return bvv(1, b)
@@ -366,6 +410,22 @@ class Engine:
             v = {'add': lambda: a + b, 'sub': lambda: a - b, 'mul': lambda: a * b, 'shl': lambda: a << b, 'lshr': lambda: z3.LShR(a, b), 'ashr': lambda: a >> b, 'and': lambda: a & b, 'or': lambda: a | b, 'xor': lambda: a ^ b,
                  'udiv': lambda: z3.UDiv(a, b), 'sdiv': lambda: a / b, 'urem': lambda: z3.URem(a, b), 'srem': lambda: z3.SRem(a, b)}[op]()
             setv(simp(v)); return None
+        # floating point: concrete values are computed exactly (z3 FP terms); a value that depends on symbolic data is OVER-APPROXIMATED:
+        # it becomes 'any double' (FPANY) and converting it to an integer yields a fresh unconstrained integer -- sound for safety properties
+        if op in ('sitofp', 'uitofp'):
+            mm = re.match(r'\w+\s+(.*)\s+to\s+(.*)$', t); ty, v = s.operand(st, mm.group(1))
+            if not is_c(simp(v)): setv(FPANY); return None
+            setv(z3.simplify(z3.fpSignedToFP(z3.RNE(), v, z3.Float64()) if op == 'sitofp' else z3.fpUnsignedToFP(z3.RNE(), v, z3.Float64()))); return None
+        if op in ('fadd', 'fsub', 'fmul', 'fdiv'):
+            rest = re.sub(r'^\w+\s+((fast|nnan|ninf|nsz|arcp|contract|afn|reassoc)\s+)*', '', t); parts = s.tr.split_commas(rest); ty, a = s.operand(st, parts[0]); b = s.value(st, ty, parts[1].strip())
+            if a is FPANY or b is FPANY: setv(FPANY); return None
+            f = {'fadd': z3.fpAdd, 'fsub': z3.fpSub, 'fmul': z3.fpMul, 'fdiv': z3.fpDiv}[op]; setv(z3.simplify(f(z3.RNE(), a, b))); return None
+        if op in ('fptosi', 'fptoui'):
+            mm = re.match(r'\w+\s+(.*)\s+to\s+(.*)$', t); ty, v = s.operand(st, mm.group(1)); dty, _ = P.parse_type(mm.group(2)); b = s.bits_of(dty)
+            if v is FPANY: s.fresh += 1; setv(z3.BitVec('fp2int_%d' % s.fresh, b)); s.stats['fp_overapprox'] = s.stats.get('fp_overapprox', 0) + 1; return None
+            # x86-64 cvttsd2si semantics for the values LLVM leaves undefined (NaN, infinities, out of range): the 'integer indefinite' value 0x80..0
+            lim = z3.FPVal(2.0 ** (b - 1), z3.Float64()); inr = z3.And(z3.Not(z3.fpIsNaN(v)), z3.fpLT(v, lim), z3.fpGEQ(v, z3.fpNeg(lim)))
+            setv(z3.simplify(z3.If(inr, z3.fpToSBV(z3.RTZ(), v, z3.BitVecSort(b)), bvv(1 << (b - 1), b)))); return None
         if op == 'icmp':
             mm = re.match(r'icmp\s+(\w+)\s+(.*)$', t); parts = s.tr.split_commas(mm.group(2)); ty, a = s.operand(st, parts[0]); b = s.value(st, ty, parts[1].strip()); pr = mm.group(1)
             c = {'eq': lambda: a == b, 'ne': lambda: a != b, 'ult': lambda: z3.ULT(a, b), 'ule': lambda: z3.ULE(a, b), 'ugt': lambda: z3.UGT(a, b), 'uge': lambda: z3.UGE(a, b), 'slt': lambda: a < b, 'sle': lambda: a <= b, 'sgt': lambda: a > b, 'sge': lambda: a >= b}[pr]()
@@ -379,10 +439,12 @@ class Engine:
             rest = re.sub(r'^getelementptr\s+(inbounds\s+)?', '', t); parts = s.tr.split_commas(rest); base_ty, _ = P.parse_type(parts[0]); pty, base = s.operand(st, parts[1]); setv(s.gep(st, base_ty, base, parts[2:])); return None
         if op == 'load':
             rest = re.sub(r'^load\s+(volatile\s+)?', '', t); parts = s.tr.split_commas(rest); ty, _ = P.parse_type(parts[0]); pty, p = s.operand(st, parts[1]); r = P.resolve(ty)
-            if r.k not in ('int', 'ptr', 'func'): raise Unsupported("load of " + r.k)
-            nb = (s.bits_of(ty) + 7) // 8; v = s.load(st, p, nb, "load in " + fr.fn); setv(s.resize(v, s.bits_of(ty), False)); return None
+            if r.k not in ('int', 'ptr', 'func', 'double'): raise Unsupported("load of " + r.k)
+            nb = (s.bits_of(ty) + 7) // 8; v = s.load(st, p, nb, "load in " + fr.fn); v = s.resize(v, s.bits_of(ty), False); setv(z3.fpBVToFP(v, z3.Float64()) if r.k == 'double' else v); return None
         if op == 'store':
             rest = re.sub(r'^store\s+(volatile\s+)?', '', t); parts = s.tr.split_commas(rest); ty, v = s.operand(st, parts[0]); pty, p = s.operand(st, parts[1]); b = s.bits_of(ty); nb = (b + 7) // 8
+            if v is FPANY: raise Unsupported("store of a symbolic floating-point value")
+            if z3.is_fp(v): v = z3.fpToIEEEBV(v)
             s.store(st, p, s.resize(v, nb * 8, False), nb, "store in " + fr.fn); return None
         if op == 'alloca':
             mm = re.match(r'alloca\s+(.*)$', t); parts = s.tr.split_commas(mm.group(1)); ty, _ = P.parse_type(parts[0]); cnt = 1
@@ -510,6 +572,16 @@ class Engine:
         if base == '__cxa_begin_catch': st.exc = False; return done(args[0])
         if base == '__cxa_atexit': return done(bvv(0, 32))
         if base in ('__cxa_throw', '__cxa_rethrow') or (base.startswith('_ZSt') and '__throw' in base): return throw()
+        if base in ('memcmp', 'bcmp'):
+            n = simp(s.resize(args[2], 64, False))
+            if not is_c(n): raise Unsupported("memcmp with symbolic length")
+            nn = n.as_long(); r = bvv(0, 32)
+            if nn:
+                oa, offa = s.resolve(st, args[0], "memcmp"); s.bounds(st, oa, offa, nn, "memcmp"); ob, offb = s.resolve(st, args[1], "memcmp"); s.bounds(st, ob, offb, nn, "memcmp")
+                for k in range(nn - 1, -1, -1):
+                    x = s.read_byte(oa, simp(offa + bvv(k, 64))); y = s.read_byte(ob, simp(offb + bvv(k, 64))); r = z3.If(x == y, r, z3.If(z3.ULT(x, y), bvv(-1, 32), bvv(1, 32)))
+            return done(simp(r))
+        if base in ('_ZNSt8ios_baseC2Ev', '_ZNSt8ios_baseD2Ev', '_ZNSt8ios_baseC1Ev', '_ZNSt8ios_baseD1Ev', '_ZNSt13runtime_errorC1ERKNSt7__cxx1112basic_stringIcSt11char_traitsIcESaIcEEE', '_ZNSt13runtime_errorC2ERKNSt7__cxx1112basic_stringIcSt11char_traitsIcESaIcEEE', '_ZNSt13runtime_errorC2EPKc', '_ZNSt13runtime_errorD2Ev'): return done()
         if base == 'strlen':
             o, off = s.resolve(st, args[0], "strlen")
             if not is_c(off): raise Unsupported("strlen with symbolic pointer")
